@@ -130,12 +130,13 @@ CHECKS["C15"] = {
     "pkg": "c15",
     "level": "exploration",
     "technique": "reflection-enumerated command catalogue with marker-filled messages (round-trip / prefix oracle against a name rule over the proto definitions) + property-based testing of key and range encodings + keyspace end-to-end differential",
-    "level_text": "The command catalogue is enumerated completely by reflection (every CmdType with a name, its request and response message types discovered, not hand-listed) for both modes and four keyspace ids; every bytes leaf of every request/response is filled with a marker and the encode/decode result is classified leaf by leaf, so an unprefixed request key or an unstripped response key of any command is caught. Key/range encodings (round trip, order, isolation, region-range clipping) are sampled by rapid against an independent intersection model.",
+    "level_text": "The command catalogue is enumerated completely by reflection (every CmdType with a name, its request and response message types discovered, not hand-listed) for both modes and four keyspace ids; every bytes leaf of every request/response is filled with a marker and the encode/decode result is classified leaf by leaf, so an unprefixed request key or an unstripped response key of any command is caught. Key/range encodings (round trip, order, isolation, region-range clipping) are sampled by rapid against an independent intersection model. End to end, raw and transactional clients of three keyspaces (ids 1, 2, 0xffffff) share one mocktikv cluster whose regions are split at generated physical keys, and a rapid state machine compares every call of every tenant with that tenant's own ordered map (TestKeyspaceEndToEnd).",
     "level_note": "Trusted: the name rule that classifies bytes fields as key-bearing (field name contains 'key', or is primary_lock/primary/secondaries, or start/end of a KeyRange) with a reviewed allow-list (deprecated SplitRegionRequest.split_key, TiFlash CompactRequest keys); the classification table is emitted in the evidence for audit.",
     "tests": [
         {"name": "TestCatalogue", "quick": 1, "thorough": 1, "shards": 1},
         {"name": "TestKeyAndRange", "quick": 20000, "thorough": 200000, "shards": 4},
         {"name": "TestRangeRequests", "quick": 10000, "thorough": 100000, "shards": 4},
+        {"name": "TestKeyspaceEndToEnd", "quick": 2000, "thorough": 40000, "shards": 8},
     ],
 }
 
